@@ -50,7 +50,7 @@ std::string diff_cfg(const Cfg &a, const Cfg &b, const std::set<std::string> &ig
 std::string servers_csv(const ares_channel_t *ch);                                       // ares_get_servers_csv
 std::string servers_ports(const ares_channel_t *ch);                                     // ares_get_servers_ports rendering
 std::string sortlist_text(const struct apattern *sl, int n);                             // "addr/mask addr/mask"
-struct apattern *make_sortlist(const char *str, int *n);                                 // via helper channel + ares_save_options; free with ares_free-compatible free_sortlist
+struct apattern *make_sortlist(const char *str, int *n);                                 // struct apattern is opaque: built with ares_parse_sortlist(); release with free_sortlist()
 void             free_sortlist(struct apattern *p);
 int              lookup_alias(const ares_channel_t *ch, const char *name, std::string *out); // ares_lookup_hostaliases (private entry point of the HOSTALIASES parser)
 
@@ -72,7 +72,7 @@ struct Ctx {
   void violation(const std::string &key, const std::string &desc, const std::string &replay_json);
 };
 
-// leak oracle: call with the ledger baseline taken before the case; returns "" or the list of leaking sites
+// leak oracle helpers
 size_t      ledger_live();
 std::string ledger_leak_sites(); // needs ledger().trace == true during the run
 void        ledger_forget();     // drop leaked blocks from the ledger (they stay allocated)
